@@ -62,6 +62,9 @@ def _case(draw):
     if draw(st.integers(0, 3)) == 0:
         # a parameter made constant on one instance only, early, so that blocks are entered and left with it in place
         rest.insert(draw(st.integers(0, len(rest))), ["inst_const", draw(_i)])
+    if draw(st.integers(0, 11)) == 0:
+        return {"scenario": "time_type", "pre_read": draw(st.booleans()), "calls": draw(st.lists(st.sampled_from(["float", "int", "fraction"]), min_size=1, max_size=3)),
+                "route": draw(st.sampled_from(["attr", "update"])), "ops": []}
     if draw(st.integers(0, 7)) == 0:
         return {"scenario": "async_window", "kind": draw(st.sampled_from(["agen", "coro"])),
                 "target": draw(st.sampled_from(["c", "name", "cn", "r"])), "route": draw(st.sampled_from(["attr", "update"])),
@@ -131,9 +134,46 @@ def _execute_async_window(case):
     return res
 
 
+def _execute_time_type(case):
+    """param.Time declares its time_type constant and documents Time.__call__(val, time_type=...) as the way to change it:
+    after such calls a plain assignment is still rejected and every constant flag is up."""
+    from fractions import Fraction
+    res = Result()
+    types = {"float": float, "int": int, "fraction": Fraction}
+    t = param.Time()
+    if case["pre_read"]:
+        t.param["time_type"]           # the per-instance Parameter object exists before the call
+    for name in case["calls"]:
+        t(1, time_type=types[name])
+        if t.time_type is not types[name]:
+            res.fail("C14.time_type_call", f"Time.__call__(1, time_type={name}) left time_type at {t.time_type!r}")
+    held = t.time_type
+    try:
+        if case["route"] == "attr":
+            t.time_type = complex
+        else:
+            t.param.update(time_type=complex)
+    except TypeError:
+        pass
+    else:
+        res.fail("C14.constant_rebound", f"after Time.__call__(..., time_type=...) x{len(case['calls'])} "
+                                         f"(instance Parameter {'existed' if case['pre_read'] else 'did not exist'} before) the "
+                                         f"constant time_type could be rebound via {case['route']}")
+    if t.time_type is not held and not res.violations:
+        res.fail("C14.held_object_changed", "time_type changed although the assignment raised")
+    for who, p in (("class", param.Time.param["time_type"]), ("instance", t.param["time_type"])):
+        if p.constant is not True:
+            res.fail("C14.flag_not_restored", f"constant flag of the {who}-level time_type Parameter is {p.constant!r} after the call")
+    res.label("scenario:time_type")
+    res.nontrivial = True
+    return res
+
+
 def execute(case):
     if case.get("scenario") == "async_window":
         return _execute_async_window(case)
+    if case.get("scenario") == "time_type":
+        return _execute_time_type(case)
     res = Result()
     # value pool: index 4 is equal to index 0 but a distinct object
     objs = [[0], [1], [2], [3], [0], [5]]
